@@ -27,10 +27,7 @@ package kv
 //@ guarded_by AtomicInt64Counter.db mu
 //@ unshared OpenCounter the counter is built before it is published
 
-//@ # ghost: the number of transactions applied to the store so far
-//@ ghost SpecApplied *int
-//@ # a successful Commit applies the transaction: it is the next one in the store's commit order
+//@ # Commit is an engine call outside the subset: it has no effect on modelled state here and may
+//@ # fail; what it means for a caller's ghost state is said at the call site (gorp tx.Commit)
 //@ trusted func (t Tx) Commit(ctx context.Context, opts ...any) (err error)
-//@   ensures err == nil ==> *SpecApplied == old(*SpecApplied) + 1
-//@   ensures err != nil ==> *SpecApplied == old(*SpecApplied)
-//@   modifies SpecApplied
+//@   modifies nothing
